@@ -1252,6 +1252,61 @@ where
          what="the millisecond value is compared with a bound written out in the wrong unit (1000x too large)",
          old="""            if self.table_mutation_cache_ms_ttl > MAX_CACHE_EXPIRATION_SECS * 1000 {""",
          new="""            if self.table_mutation_cache_ms_ttl > 31_536_000_000_000_000 {"""),
+    dict(id="c06-bound-statement-skipped-when-parsed-anywhere-in-the-batch", prop="C06", file="src/client.rs", expect="C06-R6",
+         what="the Bind arm gives up on a statement parsed anywhere in this batch, not only last (D82 again)",
+         old="""            .iter()
+            .rev()
+            .find_map(|data| match data {
+                ExtendedProtocolData::Parse { metadata, .. } => Some(
+                    matches!(metadata, Some((buffered, _)) if buffered.name == parse.name),
+                ),
+                _ => None,
+            })
+            .unwrap_or(false);""", new="""            .iter()
+            .any(|data| matches!(data, ExtendedProtocolData::Parse { metadata: Some((buffered, _)), .. } if buffered.name == parse.name));"""),
+    dict(id="c16-intercepted-batch-keeps-the-server", prop="C16", file="src/client.rs", expect="C16-R3",
+         what="the Sync arm goes on waiting after a plugin answered the batch, without the release test (D83 again)",
+         old="""                                write_all(&mut self.write, result).await?;
+                                plugin_output = None;
+                                self.forget_buffered_prepared_statements();
+                                self.reset_buffered_state();
+
+                                if self.transaction_mode
+                                    && !server.in_transaction()
+                                    && !server.in_copy_mode()
+                                {
+                                    break;
+                                }
+""", new="""                                write_all(&mut self.write, result).await?;
+                                plugin_output = None;
+                                self.forget_buffered_prepared_statements();
+                                self.reset_buffered_state();
+"""),
+    dict(id="c17-denied-query-keeps-the-server", prop="C17", file="src/client.rs", expect="C17-R1",
+         what="the Query arm of the transaction loop goes on waiting after a Deny without the release test (D83 again)",
+         old="""                                        error_response(&mut self.write, &error).await?;
+
+                                        if self.transaction_mode
+                                            && !server.in_transaction()
+                                            && !server.in_copy_mode()
+                                        {
+                                            break;
+                                        }
+""", new="""                                        error_response(&mut self.write, &error).await?;
+"""),
+    dict(id="c04-cache-only-batch-keeps-the-server", prop="C04", file="src/client.rs", expect="C04-R3",
+         what="a batch served from the statement cache alone skips the release (round-10 seed)",
+         old="""                        if should_send_to_server {
+                            self.send_and_receive_loop(
+                                code,
+                                None,""", new="""                        if !should_send_to_server {
+                            self.buffer.clear();
+                            continue;
+                        }
+                        if should_send_to_server {
+                            self.send_and_receive_loop(
+                                code,
+                                None,"""),
     # ------------------------------------------------------------------ C17
     dict(id="c17-shutdown-checked-in-transaction", prop="C17", file="src/client.rs", expect="C17-R1",
          what="the transaction loop also reacts to the shutdown broadcast",
